@@ -188,6 +188,7 @@ func ruleC10(w *World, r *Report) {
 		"R10.6 forgetting and isolation: the address received on pConnDone is the key deleted from pConns (main loop and stop-time join), a connection's store is created for it alone, RemoveSession deletes under the key PutSession stores under, GetAllSessions ranges over the same map; " +
 		"R10.7 stop sequence: cancel → (every Serve sees ctx.Done → Shutdown) → node stops accepting → join of all connections bounded by a timer → datapath Exit → close(done); Stop waits on Done after cancelling; R10.8 session records are added only where teardown cannot miss them."
 	r.Explanation += " R10.10 the reader goroutine — the only place a read time-out is noticed — ends only on time-out or closed socket."
+	r.Explanation += " R10.11 = C06 R06.7 (distinct SEID sequences per association)."
 	r.NotDecided = "exactly-once under every interleaving beyond these typestate/ordering rules; bounded time beyond 'every stop-path wait has a timer alternative' (SendMsgToUPF's own time-outs are trusted); that conn.RemoteAddr().String() equals the key string used at creation (both are String() of the peer's UDP address)"
 
 	ruleC10SelfTest(r)
